@@ -4337,7 +4337,11 @@ def fix_raise_missing_from(source: str) -> str:
     except {{exception}} as error:
         raise {{something}} from error
     """
-    yield from processing.find_replace(source, find, replace)
+    root = core.parse(source)
+    if any(name == "error" for _, name in _iter_identifier_mentions(root)):
+        return  # the handler would rebind (and afterwards unbind) a name the program uses
+
+    yield from processing.find_replace(source, find, replace, root=root)
 
 
 @processing.fix
